@@ -8,10 +8,13 @@ import (
 	"encoding/json"
 	"errors"
 	"fmt"
+	"math/rand"
 	"net/http"
 	"net/http/httptest"
 	"strconv"
 	"strings"
+	"sync"
+	"sync/atomic"
 	"time"
 
 	sse "github.com/tmaxmax/go-sse"
@@ -239,11 +242,18 @@ func runUT(args []string) string {
 		return "bad-args"
 	}
 	m := junkMessage()
+	// a copy of what the receiver held before (a record decoded earlier, kept by its Clone): decoding the next record
+	// into the same receiver leaves the copy alone
+	kept := m.Clone()
+	keptText := kept.String()
 	buf := unhx(args[0])
 	err := m.UnmarshalText(buf)
 	// the text buffer is the caller's: it is reused for the next record
 	for i := range buf {
 		buf[i] = '\n'
+	}
+	if now := kept.String(); now != keptText {
+		return "CLONE-OF-THE-RECEIVER-CHANGED " + hxs(now)
 	}
 	return unmarshalErrClass(err) + " | " + msgShow(m)
 }
@@ -581,3 +591,94 @@ func init() {
 	runners["GFLD"] = runFLD // the same run, for Scan / UnmarshalJSON as translated (Gen/FieldRoutes.lean)
 	runners["FAM"] = runFAM
 }
+
+// CENC <seed>: members of one clone family with different field values encoded from several goroutines at once, each many
+// times through WriteTo, String and MarshalText: every encoding is the member's own (clones share no state, hidden
+// scratch space included). Output "ok" or the first wrong encoding.
+func runCENC(args []string) string {
+	if len(args) != 1 {
+		return "bad-args"
+	}
+	rng := rand.New(rand.NewSource(i64(args[0])))
+	tmpl := &sse.Message{Type: sse.Type("tick")}
+	tmpl.AppendData("shared line")
+	const workers = 4
+	ms := make([]*sse.Message, workers)
+	want := make([]string, workers)
+	for i := range ms {
+		m := tmpl.Clone()
+		m.Retry = time.Duration(1_000_000_000_000+int64(i)*1111+rng.Int63n(1000)) * time.Millisecond / 1000
+		m.ID = sse.ID(fmt.Sprintf("id-%d-%d", i, rng.Intn(1000)))
+		m.AppendData(fmt.Sprintf("own line %d", i))
+		ms[i] = m
+		want[i] = m.String()
+	}
+	var bad atomic.Value
+	var wg sync.WaitGroup
+	for i := range ms {
+		wg.Add(1)
+		go func(i int) {
+			defer wg.Done()
+			for k := 0; k < 3000 && bad.Load() == nil; k++ {
+				var got string
+				switch k % 3 {
+				case 0:
+					got = ms[i].String()
+				case 1:
+					b, _ := ms[i].MarshalText()
+					got = string(b)
+				default:
+					var sb strings.Builder
+					_, _ = ms[i].WriteTo(&sb)
+					got = sb.String()
+				}
+				if got != want[i] {
+					bad.Store(fmt.Sprintf("bad:member-%d-encoded-as-%s", i, hxs(got)))
+				}
+			}
+		}(i)
+	}
+	wg.Wait()
+	if b := bad.Load(); b != nil {
+		return b.(string)
+	}
+	return "ok"
+}
+
+func init() { runners["CENC"] = runCENC }
+
+// CFLD <rounds>: sse.Type and sse.ID called with one multi-line value from several goroutines at once (each round a new
+// value, a long one with its line break near the end): every call panics, none returns a value — whatever the others are
+// doing. Output "ok" or what came back.
+func runCFLD(args []string) string {
+	if len(args) != 1 {
+		return "bad-args"
+	}
+	rounds := atoi(args[0])
+	var bad atomic.Value
+	for r := 0; r < rounds && bad.Load() == nil; r++ {
+		v := fmt.Sprintf("round-%d-", r) + strings.Repeat("v", 300_000) + "\nx"
+		var wg sync.WaitGroup
+		for g := 0; g < 8; g++ {
+			wg.Add(1)
+			go func(g int) {
+				defer wg.Done()
+				defer func() { _ = recover() }()
+				if g%2 == 0 {
+					t := sse.Type(v)
+					bad.Store(fmt.Sprintf("bad:Type-returned-set=%v-with-a-line-break", t.IsSet()))
+				} else {
+					id := sse.ID(v)
+					bad.Store(fmt.Sprintf("bad:ID-returned-set=%v-with-a-line-break", id.IsSet()))
+				}
+			}(g)
+		}
+		wg.Wait()
+	}
+	if b := bad.Load(); b != nil {
+		return b.(string)
+	}
+	return "ok"
+}
+
+func init() { runners["CFLD"] = runCFLD }
